@@ -183,3 +183,41 @@ func ClosedRecv() (int, bool, int, int) {
 	z, ok := <-ch
 	return a + z, ok, l, len(ch)
 }
+
+// Queue: a bounded queue on sync.Cond; producers and consumers wait for each other.
+type Queue struct {
+	mu       sync.Mutex
+	notEmpty *sync.Cond
+	notFull  *sync.Cond
+	items    []int
+	max      int
+}
+
+func NewQueue(max int) *Queue {
+	q := &Queue{max: max}
+	q.notEmpty = sync.NewCond(&q.mu)
+	q.notFull = sync.NewCond(&q.mu)
+	return q
+}
+
+func (q *Queue) Put(v int) {
+	q.mu.Lock()
+	for len(q.items) >= q.max {
+		q.notFull.Wait()
+	}
+	q.items = append(q.items, v)
+	q.notEmpty.Signal()
+	q.mu.Unlock()
+}
+
+func (q *Queue) Get() int {
+	q.mu.Lock()
+	for len(q.items) == 0 {
+		q.notEmpty.Wait()
+	}
+	v := q.items[0]
+	q.items = q.items[1:]
+	q.notFull.Broadcast()
+	q.mu.Unlock()
+	return v
+}
